@@ -48,6 +48,17 @@ def gen_cases(tier, seed, configs):
     return cases
 
 
+def top_kernel_clause(c, res, corr, orc):
+    """the kernel the top tree builds for itself works on the virtual box above the real one"""
+    tk_c, tk_l = [ln for ln in res.cpp if ln.startswith("TK ")], [ln for ln in res.lean if ln.startswith("TK ")]
+    nn = c["meta"]["n"]
+    want_tk = "TK %d %d 2" % (nn + 5, 4 if nn < 0 else 8 << nn)
+    if tk_c and tk_c[0] != want_tk:
+        orc.append(("C10:top-kernel-config", "the top tree's own kernel was built from (height, width, 2*centre offset) = %s; the virtual tree above %d extra level(s) is %s" % (tk_c[0][3:], nn, want_tk[3:])))
+    if tk_c != tk_l:
+        corr.append(("top-kernel-config", "top-tree kernel configuration differs (library %r, model %r)" % (tk_c, tk_l)))
+
+
 def covered_images(case, lines):
     """multiset of image offsets (in units of the real box) whose contribution reaches the real box, reconstructed from the
     calls the library actually made: the regular periodic pass accounts for [-1,1]^D (checked separately through C01's closed forms
@@ -129,10 +140,11 @@ def evaluate(res):
     cv, lv = sorted(core.section(res.cpp, "V ")), sorted(core.section(res.lean, "V "))
     if cv != lv:
         corr.append(("values", "values differ between library and model"))
+    top_kernel_clause(c, res, corr, orc)
     # the reported interval
     pi = [ln for ln in res.cpp if ln.startswith("PI ")]
     if not pi:
-        return corr, [("C10:no-interval", "no repetition interval reported")]
+        return corr, orc + [("C10:no-interval", "no repetition interval reported")]
     t = pi[0].split()
     R, total = int(t[1]), int(t[2])
     iv = [tuple(int(x) for x in s.split(":")) for s in t[3:]]
@@ -197,9 +209,10 @@ def evaluate_tsm(res):
         corr.append(("tsm-top-calls", "target/source top-tree calls differ (library, model): %r" % (d or (len(ct_c), len(ct_l)),)))
     if sorted(core.section(res.cpp, "V ")) != sorted(core.section(res.lean, "V ")):
         corr.append(("tsm-values", "target/source periodic run: values differ between library and model"))
+    top_kernel_clause(c, res, corr, orc)
     pi = [ln for ln in res.cpp if ln.startswith("PI ")]
     if not pi:
-        return corr, [("C10:no-interval", "no repetition interval reported")]
+        return corr, orc + [("C10:no-interval", "no repetition interval reported")]
     t = pi[0].split()
     R, total = int(t[1]), int(t[2])
     iv = [tuple(int(x) for x in s_.split(":")) for s_ in t[3:]]
